@@ -106,6 +106,18 @@ func execTmpl(s *scenario) string {
 	} else {
 		ci = getShared(s.world)
 	}
+	bp := s.buildPool(w)
+	var src mining.TxSource
+	if s.src == "pool" && s.admPre {
+		// the pool was filled on the branch that is about to be abandoned and
+		// nobody tells it about the reorganisation
+		ci.clock.set(worldT0 + worldSpacing*int64(worldBlocks) + 1200)
+		mp, res := s.realPool(ci, bp)
+		if res != "" {
+			return res
+		}
+		src = mp
+	}
 	if s.roK > 0 {
 		if err := ci.reorg(s.roF, s.roK); err != nil {
 			dbg("reorg: %v", err)
@@ -113,9 +125,7 @@ func execTmpl(s *scenario) string {
 		}
 	}
 	// the pool is filled on the tip as it is now; the chain may then grow
-	bp := s.buildPool(w)
-	var src mining.TxSource
-	if s.src == "pool" {
+	if s.src == "pool" && !s.admPre {
 		preNow := s.now
 		if s.fwd > 0 {
 			preNow -= worldSpacing * int64(s.fwd)
@@ -399,7 +409,7 @@ func (s *scenario) realPool(ci *chainInst, bp *builtPool) (*mempool.TxPool, stri
 	// the descriptor values the line predicts must be the pool's
 	for _, d := range mp.MiningDescs() {
 		j := bp.index[*d.Tx.Hash()]
-		if d.Fee != s.txs[j].fee || d.FeePerKB != s.txs[j].fpk {
+		if d.Fee != s.txs[j].fee || (d.FeePerKB != s.txs[j].fpk && !s.admPre) {
 			dbg("pool desc %d: fee %d fpk %d", j, d.Fee, d.FeePerKB)
 			return nil, "stale-line:desc"
 		}
